@@ -518,6 +518,140 @@ fn check_shape(cx: &mut Case, nodes: &[Sh], labels: &[u8]) -> CaseResult {
         }
     }
     let _ = index_of;
+    if nodes.len() <= 48 {
+        check_real(cx, nodes, labels)?;
+    }
+    Ok(())
+}
+
+// ---------------------------------------------------------------------------------------------
+// The same shape as a DAG of real library nodes, walked with the library's own trackers
+// ---------------------------------------------------------------------------------------------
+
+type CNode = simplicity::CommitNode;
+
+fn real_children(n: &CNode) -> (Option<&CNode>, Option<&CNode>) {
+    use simplicity::node::Inner;
+    match n.inner() {
+        Inner::InjL(c) | Inner::InjR(c) | Inner::Take(c) | Inner::Drop(c) => (Some(c.as_ref()), None),
+        Inner::Pair(l, r) | Inner::Comp(l, r) | Inner::Case(l, r) => (Some(l.as_ref()), Some(r.as_ref())),
+        _ => (None, None),
+    }
+}
+
+#[derive(Clone, PartialEq, Eq, Hash)]
+enum RealKey {
+    Ptr(usize),
+    Ihr([u8; 32]),
+}
+
+struct RealSpec {
+    by_ihr: bool,
+    seen: HashMap<RealKey, usize>,
+    out: Vec<(usize, Option<usize>, Option<usize>)>,
+}
+
+impl RealSpec {
+    /// Recursive specification of post-order with a seen-set over pointers or identity hashes
+    /// (a node without an identity hash is never shared under identity-hash sharing).
+    fn visit(&mut self, n: &CNode) -> usize {
+        let key = if self.by_ihr { n.ihr().map(|i| RealKey::Ihr(i.to_byte_array())) } else { Some(RealKey::Ptr(n as *const CNode as usize)) };
+        if let Some(k) = &key {
+            if let Some(i) = self.seen.get(k) {
+                return *i;
+            }
+        }
+        let (l, r) = real_children(n);
+        let li = l.map(|c| self.visit(c));
+        let ri = r.map(|c| self.visit(c));
+        let i = self.out.len();
+        self.out.push((n as *const CNode as usize, li, ri));
+        if let Some(k) = key {
+            self.seen.insert(k, i);
+        }
+        i
+    }
+}
+
+/// Nullary -> unit or iden (by label), unary -> injl, binary -> pair: every shape is well typed
+/// (all nodes share one free source type), structurally equal nodes get equal identity hashes,
+/// and type finalisation keeps the pointer structure.
+fn check_real(cx: &mut Case, nodes: &[Sh], labels: &[u8]) -> CaseResult {
+    use simplicity::dag::MaxSharing;
+    use simplicity::node::{Commit, ConstructNode, CoreConstructible};
+    use std::sync::Arc;
+    let commit: Arc<CNode> = simplicity::types::Context::with_context(|ctx| -> Result<Arc<CNode>, String> {
+        let mut built: Vec<Arc<ConstructNode>> = Vec::with_capacity(nodes.len());
+        for (i, n) in nodes.iter().enumerate() {
+            let node = match *n {
+                Sh::N => {
+                    if labels.get(i).copied().unwrap_or(0) % 2 == 0 {
+                        Arc::<ConstructNode>::unit(&ctx)
+                    } else {
+                        Arc::<ConstructNode>::iden(&ctx)
+                    }
+                }
+                Sh::U(c) => Arc::<ConstructNode>::injl(&built[c]),
+                Sh::B(l, r) => Arc::<ConstructNode>::pair(&built[l], &built[r]).map_err(|e| harness_error(format!("pair of shape nodes rejected: {}", e)))?,
+            };
+            built.push(node);
+        }
+        built.last().unwrap().finalize_types_non_program().map_err(|e| harness_error(format!("shape program not finalised: {}", e)))
+    })?;
+    let root: &CNode = commit.as_ref();
+    let mut by_ptr = RealSpec { by_ihr: false, seen: HashMap::new(), out: vec![] };
+    by_ptr.visit(root);
+    let mut by_ihr = RealSpec { by_ihr: true, seen: HashMap::new(), out: vec![] };
+    by_ihr.visit(root);
+    cx.label("real nodes: library trackers checked");
+    cx.label_if(by_ihr.out.len() < by_ptr.out.len(), "real nodes: equal identity hashes on distinct node objects");
+    let cmp = |what: &str, want: &[(usize, Option<usize>, Option<usize>)], got: Vec<(usize, usize, Option<usize>, Option<usize>)>| -> CaseResult {
+        if got.len() != want.len() {
+            return Err(format!("{} on real nodes yields {} items, the specification {} (shape {:?}, labels {:?})", what, got.len(), want.len(), nodes, labels));
+        }
+        for (i, (g, w)) in got.iter().zip(want.iter()).enumerate() {
+            if g.0 != i {
+                return Err(format!("{} on real nodes: item {} carries index {}", what, i, g.0));
+            }
+            if g.1 != w.0 {
+                return Err(format!("{} on real nodes: item {} is another node than the specification's (shape {:?}, labels {:?})", what, i, nodes, labels));
+            }
+            if g.2 != w.1 || g.3 != w.2 {
+                return Err(format!("{} on real nodes: item {} reports children at {:?}/{:?}, its actual children were yielded at {:?}/{:?} (shape {:?}, labels {:?})", what, i, g.2, g.3, w.1, w.2, nodes, labels));
+            }
+        }
+        Ok(())
+    };
+    cmp("post_order_iter::<MaxSharing<Commit>> (&Node)", &by_ihr.out, root.post_order_iter::<MaxSharing<Commit>>().map(|d| (d.index, d.node as *const CNode as usize, d.left_index, d.right_index)).collect())?;
+    cmp("post_order_iter::<MaxSharing<Commit>> (Arc<Node>)", &by_ihr.out, Arc::clone(&commit).post_order_iter::<MaxSharing<Commit>>().map(|d| (d.index, Arc::as_ptr(&d.node) as usize, d.left_index, d.right_index)).collect())?;
+    cmp("post_order_iter::<InternalSharing> (&Node)", &by_ptr.out, root.post_order_iter::<InternalSharing>().map(|d| (d.index, d.node as *const CNode as usize, d.left_index, d.right_index)).collect())?;
+    cmp("post_order_iter::<InternalSharing> (Arc<Node>)", &by_ptr.out, Arc::clone(&commit).post_order_iter::<InternalSharing>().map(|d| (d.index, Arc::as_ptr(&d.node) as usize, d.left_index, d.right_index)).collect())?;
+    // pre-order under identity-hash sharing: the same set of classes, each once
+    {
+        let mut want: Vec<usize> = by_ihr.out.iter().map(|x| x.0).collect();
+        let mut got: Vec<usize> = root.pre_order_iter::<MaxSharing<Commit>>().map(|n| n as *const CNode as usize).collect();
+        // the representative of a class may differ between the two orders: compare identity hashes
+        let ihr_of = |p: usize| unsafe { (*(p as *const CNode)).ihr().map(|i| i.to_byte_array()) };
+        let mut w: Vec<Option<[u8; 32]>> = want.drain(..).map(ihr_of).collect();
+        let mut g: Vec<Option<[u8; 32]>> = got.drain(..).map(ihr_of).collect();
+        w.sort();
+        g.sort();
+        if w != g {
+            return Err(format!("pre_order_iter::<MaxSharing<Commit>> on real nodes yields {} items, post-order specification has {} classes (or other classes) (shape {:?}, labels {:?})", g.len(), w.len(), nodes, labels));
+        }
+    }
+    // the sharing check: accepted exactly when the pointer structure already is the requested sharing
+    let already_max = by_ihr.out.iter().map(|x| x.0).collect::<Vec<_>>() == by_ptr.out.iter().map(|x| x.0).collect::<Vec<_>>();
+    if root.is_shared_as::<MaxSharing<Commit>>() != already_max {
+        return Err(format!("is_shared_as::<MaxSharing<Commit>> on real nodes returns {} for a DAG whose pointer structure {} identity-hash sharing (shape {:?}, labels {:?})", !already_max, if already_max { "equals" } else { "differs from" }, nodes, labels));
+    }
+    if !root.is_shared_as::<InternalSharing>() {
+        return Err("is_shared_as::<InternalSharing> is false on a DAG of real nodes".into());
+    }
+    let tree = by_ptr.out.len() == root.post_order_iter::<NoSharing>().take(100_000).count();
+    if root.post_order_iter::<NoSharing>().take(100_000).count() < 100_000 && root.is_shared_as::<NoSharing>() != tree {
+        return Err(format!("is_shared_as::<NoSharing> on real nodes returns {} although the DAG {} a tree (shape {:?})", !tree, if tree { "is" } else { "is not" }, nodes));
+    }
     Ok(())
 }
 
